@@ -224,6 +224,17 @@ def spec_id_checks(run, case, scratch, rng, trace_spec_id):
         run.violation("inspect_prints_no_spec_id", f"`semantiva inspect` printed no run-space spec id: {res.out[:300]!r} {res.err[:200]!r}", witness)
     elif trace_spec_id is not None and sid != trace_spec_id:
         run.violation("spec_id_inspect_vs_trace_differs", f"inspect prints {sid}, run_space_start carries {trace_spec_id}", dict(witness, inspect=sid, trace=trace_spec_id))
+    # the same run space declared at top level PLUS a different one under pipeline: (the top-level block is the one that
+    # executes): inspect must print the id of the block that runs
+    both = os.path.join(wd, "both.yaml")
+    decoy = {"combine": "combinatorial", "max_runs": 50, "blocks": [{"mode": "by_position", "context": {"decoy_key": [1.0, 2.0]}}]}
+    cli.write_yaml(both, case["nodes"], case["run_space"], None, nested_run_space=decoy)
+    sid_both, _ = inspect_spec_id(both, wd)
+    run.count("inspect_runs")
+    if sid is not None and sid_both != sid:
+        run.violation("spec_id_inspect_differs_when_run_space_declared_in_both_places",
+                      f"inspect prints {sid_both} for a file that declares the run space at top level and another one under pipeline:, "
+                      f"{sid} for the top-level block alone (the top-level block is the one `semantiva run` executes)", dict(witness, decoy=decoy))
     # cosmetic rewrites
     for j in range(3):
         rs = shuffle_keys(copy.deepcopy(case["run_space"]), rng)
